@@ -158,7 +158,8 @@ def field_size(d):
     k = d[0]
     if k == 'str': return 10
     if k == 'fix': return d[1]
-    if k in ('cat', 'leaky'): return max(len(key.encode('latin-1').decode('utf-8')) for key, _ in d[1])
+    if k in ('cat', 'leaky'):        # fix F-C05f: at least 1 (a table whose keys are all empty asked for a zero budget)
+        return max([len(key.encode('latin-1').decode('utf-8')) for key, _ in d[1]] + [1])
     if k == 'bool': return 5
     return 20
 
@@ -691,10 +692,12 @@ def text_case(op, t, crs, names, rng=None, **kw):
 U_E = 'é'.encode('utf-8').decode('latin-1')
 CATS1 = [['', 0], ['a', 1], ['ab', 2]]
 CATS2 = [['yes', 1], ['no', 2], [U_E, 3], ['maybe so', 4]]
+CATS0 = [['', 0]]             # all keys empty: _field_size was 0 (F-C05f)
 TYPED_KINDS = {
     # name: (definition, small cell pool (first cells = the most telling ones), extra cells for the random part)
     'leaky': (['leaky', CATS1], ['x', 'a', '', 'abc'], ['ab', 'b,c', 'q"r', 'two\nlines', U_E, ' lead', 'a' * 23]),
     'leaky2': (['leaky', CATS2], ['yes', 'nope', U_E + U_E, ''], ['no', 'maybe so', 'maybe', 'x', U_E, 'yes,no']),
+    'leaky0': (['leaky', CATS0], ['', 'x', 'yz', 'a,b'], ['q', U_E]),
     'cat': (['cat', CATS1], ['a', 'x', '', 'ab'], ['abc', 'b', ' a']),
     'fix': (['fix', 3], ['abcd', 'a', '', U_E + 'z'], ['abc', 'ab,cd', 'x"y']),
     'bool': (['bool', 0, 2], ['yes', '0', '', 'q'], ['TRUE', 'off', ' y ', 'No', '2']),
@@ -961,7 +964,7 @@ RULE = ('exhaustive small scope: every table over a 9-cell grammar pool (empty, 
         'quoting styles, 20% with CRLF line breaks, include/exclude through the real HDF5 import with >= 6 columns so the production budget '
         '10*chunk_row_size overflows); text-level blank-skipping and CRLF files judged against csv.reader; a malformed '
         'stream (ragged, stray quotes, windows below the regime) compared model-vs-implementation only. TYPED schemas (SC05): '
-        'one typed column (free-text categorical x2 key tables, categorical, fixed string, bool relaxed/allow_empty, int8 relaxed, '
+        'one typed column (free-text categorical x3 key tables incl. the all-empty-keys table, categorical, fixed string, bool relaxed/allow_empty, int8 relaxed, '
         'int32 allow_empty, uint8 strict, string) next to an id column, EVERY cell sequence of 3 rows over 4 cells and 4 rows over 3 '
         'cells x every supported chunk_row_size (the smallest reads one record per pass, so importer state crosses >= 3 passes); '
         'every 3-row sequence with 1- and 3-byte value budgets through the driver (passes that commit no record); 6/9/12 records '
@@ -978,8 +981,8 @@ ASSUMPTIONS = ['stop_after_rows is None', 'column names are distinct',
                'typed columns (op=typ): string, fixed string, categorical with and without free text, bool, int8..int32 - what a '
                'cell text DENOTES is property C06; here the typed importers are exercised as state machines over the reader passes '
                '(float / date / datetime importers keep no state between passes beyond their append position and are covered by C06)',
-               'category keys are distinct, valid UTF-8, codes in 0..127; at least one key is non-empty (a zero field_size is a zero '
-               'value budget, outside the regime)']
+               'category keys are distinct, valid UTF-8, codes in 0..127 (a key table whose keys are all empty is in scope: '
+               'finding F-C05f, repaired)', 'every value budget handed to the driver directly is positive']
 TECHNIQUE = ('Coq proof about a byte-for-byte Gallina model of fast_csv_reader and its window/regrowth driver, generic in the '
              'importer list (typed importers composed from the C06 models) + exhaustive small-scope differential '
              'correspondence against the real import, typed schemas included')
